@@ -70,16 +70,22 @@ CLAIMS = {
             "targeted corruptions; oracle: a probing decoder records the rejected routed lines, each is removed and the "
             "results must be equal.",
             "§6 C06"),
-    "C01": ("PARTIAL, one theorem per layer (coq/Properties/C01.v). Proved: from lines to value every decoder's parse never "
-            "panics (hit-object lines, timing-point lines and flush, control-point lookups by sortedness, slider loop "
-            "body, framing fuel), TimingPoints and the seven simpler decoders are total outright, HitObjects/Beatmap are "
-            "total whenever the curve distance returns a value on the sliders present (the only remaining obligation is "
-            "the Bezier subdivision fuel, measured generous but not proved for IEEE arithmetic); node count = repeats + 2 "
-            "<= 9001; NonZeroU32::new_unchecked only sees values >= 2. Bytes to lines: C08/C09/C10 theorems (no panic, "
-            "fuel sufficient, errors only from the reader except the recorded class D6). OPEN: encoder totality / UTF-8 "
-            "validity of re-encoding as a theorem (covered by correspondence and oracle only), memory safety of the unsafe "
-            "blocks (outside the model). Tie to the code: all nine decoders on noise, grammar files, mutations, "
-            "truncations at every length, BOM/UTF-16 variants, in release, debug (overflow checks) and tracing-feature "
+    "C01": ("Layered theorems (coq/Properties/C01.v), no hypotheses on libm or inputs: (1) bytes to lines - the reader never "
+            "panics and has enough fuel for every stream and schedule (C08), errors come only from the reader except the "
+            "recorded class D6; (2) lines to value - every parser of every decoder never panics, the seven simpler decoders "
+            "and TimingPoints are total outright; (3) the curve NEVER panics for any libm record, fuel, control-point list "
+            "(NaN/inf included) and length (stack invariant of the Bezier subdivision, slices, rotate/pop, calculate_length "
+            "indices), at both buffer levels; hence decode_hit_objects / decode_beatmap and the byte-level from_bytes yield "
+            "a value, the D6 UnexpectedEof, or OutOfFuel - never a panic (C01_decode_never_panics, "
+            "C01_decode_bytes_never_panics). Termination (T01g): the theta loop runs at most once for atan2 in [-pi,pi]; in "
+            "exact arithmetic the Bezier subdivision finishes within 2^(d+1) iterations when the second differences are "
+            "bounded by 4^d/2 (the 2^20 fuel covers 4^19/2); PARTIAL for IEEE arithmetic (only flat / equal-point classes); "
+            "refuted without a coordinate bound (finding D25: an infinite or overflowing control point never becomes flat - "
+            "public API only, the parser bounds coordinates). Node count = repeats + 2 <= 9001; NonZeroU32::new_unchecked "
+            "only sees values >= 2. OPEN: encoder totality / UTF-8 validity as a theorem (covered by the enc correspondence "
+            "and the oracle), memory safety of the unsafe blocks (outside the model). Tie to the code: all nine decoders on "
+            "noise, grammar files, mutations, truncations at every length, BOM/UTF-16 variants, large and ill-conditioned "
+            "sliders, byte-level composed model correspondence, in release, debug (overflow checks) and tracing-feature "
             "builds with a formatting subscriber; 15 s watchdog per input.",
             "§6 C01"),
     "C10": ("Unbounded theorems (coq/Properties/C10.v, axiom-free): UTF-8 / UTF-16LE / UTF-16BE codec round trips for every "
